@@ -550,7 +550,7 @@ func isKindCmp(info *types.Info, e ast.Expr, recv types.Object) string {
 // ---------------------------------------------------------------------------
 
 func c14Transfers(p *Prog, r *Report) {
-	r.Rule("C14.R6", "the overlaid value is the one the run uses: every Config field is read somewhere in the program (a key nobody reads cannot take effect); in the reader, each transfer of a field into the run's state comes after the batch-line overlay, is unconditional, copies the field itself (plain, converted, or divided by 100 for a field documented in %), reads the overlaid variable, and no state variable is fed from the configuration twice; nothing else in the program writes such a state variable (listed exceptions: altitude and CO2 from the weather file)", 99)
+	r.Rule("C14.R6", "the overlaid value is the one the run uses: every Config field is read somewhere in the program (a key nobody reads cannot take effect); in the reader, each transfer of a field into the run's state comes after the batch-line overlay, is unconditional, copies the field itself (plain, converted, or divided by 100 for a field documented in %), reads the overlaid variable, and no state variable is fed from the configuration twice; nothing else in the program writes such a state variable (listed exceptions: altitude and CO2 from the weather file; the leaching depth capped at the profile depth)", 99)
 	fi := p.Funcs["hermes.readConfig"]
 	if fi == nil {
 		r.Ob("readConfig", "-", false, "readConfig not found")
@@ -725,6 +725,7 @@ func c14Transfers(p *Prog, r *Report) {
 	writerExceptions := map[string]map[string]string{
 		"ALTI":    {"hermes.LoadYear": "the weather file's station altitude replaces the configured one (documented at the Config field)"},
 		"CO2KONZ": {"hermes.LoadYear": "a per-year CO2 column of the weather file replaces the configured concentration"},
+		"OUTN":    {"hermes.Input": "the configured leaching depth is capped at the number of soil layers (cap idiom only, checked by C01.R8): interface fluxes exist for the boundaries of the profile only"},
 	}
 	seenT := map[string]bool{}
 	for _, name := range tkeys {
